@@ -627,7 +627,7 @@ pub(crate) async fn do_commit_detached_transaction(
 
         let (mut manifest, mut indices) = match transaction.operation {
             Operation::Restore { version } => {
-                Transaction::restore_old_manifest(
+                let (mut manifest, indices) = Transaction::restore_old_manifest(
                     object_store,
                     commit_handler,
                     &dataset.base,
@@ -635,7 +635,10 @@ pub(crate) async fn do_commit_detached_transaction(
                     write_config,
                     &transaction_file,
                 )
-                .await?
+                .await?;
+                // Row ids handed out after the restored version must never be reused.
+                manifest.next_row_id = manifest.next_row_id.max(dataset.manifest.next_row_id);
+                (manifest, indices)
             }
             _ => transaction.build_manifest(
                 Some(dataset.manifest.as_ref()),
@@ -816,7 +819,7 @@ pub(crate) async fn commit_transaction(
         // Build an up-to-date manifest from the transaction and current manifest
         let (mut manifest, mut indices) = match transaction.operation {
             Operation::Restore { version } => {
-                Transaction::restore_old_manifest(
+                let (mut manifest, indices) = Transaction::restore_old_manifest(
                     object_store,
                     commit_handler,
                     &dataset.base,
@@ -824,7 +827,10 @@ pub(crate) async fn commit_transaction(
                     write_config,
                     &transaction_file,
                 )
-                .await?
+                .await?;
+                // Row ids handed out after the restored version must never be reused.
+                manifest.next_row_id = manifest.next_row_id.max(dataset.manifest.next_row_id);
+                (manifest, indices)
             }
             _ => transaction.build_manifest(
                 Some(dataset.manifest.as_ref()),
